@@ -26,8 +26,10 @@ CLAIM = ("All ordered pairs of literal shapes (identifier-like, digit-leading, s
          "whenever no keyword-like literal match ends before a word character the two configurations must give the same outcome.")
 NOTE = "Trusted: RefPEG's autokwd switch (identifier-like literal must not be followed by \\w) and its record of every successful literal match."
 
-SHAPES = ["a", "ab", "a1", "_a", "é", "1a", "a-b", "+", "a.", "a b"]
-L, REF, SEQ, ALT = gramgen.L, gramgen.REF, gramgen.SEQ, gramgen.ALT
+# "esc:" = the same literal written in the grammar with an escape sequence for its first character ('\\x61b' is 'ab')
+SHAPES = ["a", "ab", "a1", "_a", "é", "1a", "a-b", "+", "a.", "a b", "esc:ab", "esc:éa"]
+REF, SEQ, ALT = gramgen.REF, gramgen.SEQ, gramgen.ALT
+L = lambda s: ("lit", s[4:], "esc") if s.startswith("esc:") else ("lit", s)
 A = lambda attr, op, rhs, sep=None: ("asg", attr, op, rhs, sep, False)
 
 TEMPLATES = {
@@ -46,6 +48,7 @@ TEMPLATES = {
 def tokens(a, b):
     toks = []
     for k in dict.fromkeys([a, b]):
+        k = k[4:] if k.startswith("esc:") else k
         toks += [k, k + "x", k + "1", k + "_"]
     toks += ["x", "7"]
     return list(dict.fromkeys(toks))
